@@ -27,7 +27,7 @@ func runC03(r *rt.Run) {
 	r.Describe = describePair
 	p := buildPools(r.Thorough())
 	r.Bounds["pools"] = p.desc
-	r.Rule = "every ordered pair over pools of valid shapes built exhaustively from lattice alphabets (see C02); A.contains(B) and B.contains(A) each compared with exact containment; two index configurations and a third realisation with both operands obtained through Move from r-tree-indexed sources, a fourth scaled by 2^-30 and a fifth small and far away (step 2^-12 at 2^19); polygons sharing a Ring object; shapes read from documents with third ordinates and bbox members asked at object level; self-retracing staircases of 9..73 segments x every sub-path of 2-3 positions x 4 index configurations; non-trivial = container's bounding box covers the other's"
+	r.Rule = "every ordered pair over pools of valid shapes built exhaustively from lattice alphabets (see C02); A.contains(B) and B.contains(A) each compared with exact containment; two index configurations and a third realisation with both operands obtained through Move from r-tree-indexed sources, a fourth scaled by 2^-300 and a fifth small and far away (step 2^-12 at 2^19); polygons sharing a Ring object; shapes read from documents with third ordinates and bbox members asked at object level; self-retracing staircases of 9..73 segments x every sub-path of 2-3 positions x 4 index configurations; non-trivial = container's bounding box covers the other's"
 	r.Assume = []string{"valid operands (simple rings, holes inside) on small dyadic coordinates", "reference: every boundary/skeleton segment of B inside A by exact 1-D decomposition, plus one interior sample per hole of A (verif/mc/exact)"}
 	one := func(a, b *shp, w *rt.Worker) {
 		cur := &curPair{"contains", a.E, b.E}
